@@ -86,6 +86,8 @@ static int rank_of(const struct mkey *k)
     return it.val ? (int)(intptr_t)it.val : -1;
 }
 
+static int nested_same_map, nested_active, nested_done, nested_bad, nested_val; static const struct mkey *nested_expect;
+
 static int cmp_keys(const void *a, const void *b, void *priv)
 {
     const struct mkey *x = a, *y = b;
@@ -94,6 +96,17 @@ static int cmp_keys(const void *a, const void *b, void *priv)
     if ((simheap_id(a) >= 0 && !simheap_is_live(a)) || (simheap_id(b) >= 0 && !simheap_is_live(b))) {
         int saved = g_inlib; g_inlib = 0; (void)saved;
         sim_violation("C08/compare_released_key/erase_iterator/map", "the comparison function was handed a key object the caller had already released");
+    }
+    if (nested_same_map && !nested_active && g_run.opkind == M_FIND && x->val != nested_val && y->val != nested_val) {
+        /* a read inside a read: while a lookup is under way the comparison function looks ANOTHER key up in the same
+         * map (recursion is cut at one level); the outer lookup must still find what it was looking for */
+        static struct mkey np; cstl_map_iterator_t it2; int saved = g_inlib;
+        nested_active = 1;
+        np.magic = KMAGIC; np.tail = ~KMAGIC; np.id = -8; np.val = nested_val;
+        g_inlib = 1; cstl_map_find(&map, &np, &it2); g_inlib = saved;
+        nested_active = 0;
+        if ((it2.key != NULL) != (nested_expect != NULL) || (nested_expect && it2.key != (const void *)nested_expect)) nested_bad = 1;
+        nested_done = 1;
     }
     if (cmpkind == 3 && aux_nodes) {
         CB_ENTER();
@@ -320,6 +333,7 @@ static void huge_map(const plan_t *p)
     const char *clrprop = p->mode == 115 ? "C15" : "C08";
     size_t n = sizes[p->cfg[CF_KEYS] % 4], i, erased = 0; int pattern = (int)(p->cfg[CF_CMP] % 3); uint64_t x = p->cfg[CF_MAXN], expect = 0;
     simheap_reset(&hc, p->cfg[CF_JUNK]);
+    simheap_far((int)p->cfg[CF_FAR]);
     sim_watchdog(100);
     mode_g = p->mode; since_clear = -1; aux_nodes = 0; hm_n = n;
     g_cur_prop = "C08"; g_cur_ctx = "huge-map"; g_run.step = 0; g_run.opkind = M_INSERT; g_run.steps++;
@@ -371,6 +385,7 @@ static void intkey_once(const plan_t *p)
     static cstl_map_t im; static cstl_map_iterator_t it; static int rc;
     int present[IKMAX], n = 0, k, i, nk = (int)(p->cfg[CF_KEYS] % IKMAX) + 1;
     simheap_reset(&hc, p->cfg[CF_JUNK]);
+    simheap_far((int)p->cfg[CF_FAR]);
     mode_g = p->mode; since_clear = -1; aux_nodes = 0;
     memset(present, 0, sizeof present);
     memset(&im, (int)(unsigned char)p->cfg[CF_JUNK], sizeof im);
@@ -442,6 +457,7 @@ static void m_once(const plan_t *p)
     if (p->mode == 108 || p->mode == 115) { huge_map(p); return; }
     if (p->cfg[CF_INTKEYS] && p->mode != 16) { intkey_once(p); return; }
     simheap_reset(&hc, p->cfg[CF_JUNK]);
+    simheap_far((int)p->cfg[CF_FAR]);
     faultenum_apply();
     mode_g = p->mode;
     keys = (int)p->cfg[CF_KEYS]; if (keys < 1) keys = 1;
@@ -531,8 +547,18 @@ static void m_once(const plan_t *p)
                 TRY(cstl_map_find(&map, &alias.k, &alias.it));
                 it = alias.it;
                 PROBE("find_probe_aliases_iterator");
-            } else
-            TRY(cstl_map_find(&map, &probe, &it));
+            } else {
+                nested_same_map = 0; nested_done = 0; nested_bad = 0;
+                if ((o->a[2] >> 3 & 3) == 3 && cmpkind != 3 && nent > 0 && p->mode != 16) {
+                    int pick = (int)((o->a[3] >> 9) % (uint64_t)(nent + 1));
+                    nested_same_map = 1;
+                    if (pick < nent) { nested_val = ent[pick].k->val; nested_expect = ent[pick].k; }
+                    else { nested_val = keys + 11; nested_expect = NULL; }
+                }
+                TRY(cstl_map_find(&map, &probe, &it));
+                nested_same_map = 0;
+                if (nested_done) { PROBE("find_nested_in_comparison_function"); if (nested_bad) VIOL("nested_find", "a lookup of key %d made from inside the comparison function of another lookup on the same map returned the wrong answer", nested_val); }
+            }
             if (g_aborted) VIOL("abort", "find aborted");
             if (ei >= 0) {
                 PROBE("find_present");
@@ -661,6 +687,7 @@ static void m_exec(const plan_t *p)
 
 static void m_gen(prng_t *r, int mode, plan_t *p)
 {
+    p->cfg[CF_FAR] = FAR_OF_INDEX();      /* element blocks 2^32 or 3 * 2^31 bytes apart in one run in seven each */
     int longrun = mode != 16 && prng_chance(r, 1, 10), small = !longrun && prng_chance(r, 1, 5);
     int nops = longrun ? 300 + (int)prng_below(r, 1500) : small ? 2 + (int)prng_below(r, 8) : 10 + (int)prng_below(r, 70);
     unsigned w_clear = mode == 15 ? 10 : 2;
